@@ -67,10 +67,10 @@ func deriveRuns(thorough bool) []hrun {
 }
 
 var c02ids = []string{"inline-confined", "inline-columns-are-query-fields", "inline-strings-are-query-values", "param-confined",
-	"param-columns-are-query-fields", "ident-confined", "ident-is-the-name", "ident-nonempty", "ident-param-confined", "ident-param-is-the-name", "ident-same-outcome"}
+	"param-columns-are-query-fields", "ident-confined", "ident-is-the-name", "ident-nonempty", "ident-param-confined", "ident-param-is-the-name", "ident-same-outcome", "value-confined", "value-param-confined"}
 var c03ids = []string{"fragment-renders", "sql-means-query", "inline-numbers-are-query-values"}
 var c04ids = []string{"inline-ok-implies-param-ok", "param-count", "param-no-inline-values", "param-values-in-order", "param-substitution-equals-inline",
-	"param-means-inline", "same-outcome-for-same-kinds", "sql-text-independent-of-values", "param-count-independent-of-values"}
+	"param-means-inline", "same-outcome-for-same-kinds", "sql-text-independent-of-values", "param-count-independent-of-values", "value-param-confined", "value-param-equals-inline-constant"}
 
 const nSQLForms = 30
 
@@ -93,8 +93,18 @@ func identRuns(thorough bool) []hrun {
 		{Harness: "IdentConfined", Params: P("MODE", 0, "UNITS", 1)}, {Harness: "IdentConfined", Params: P("MODE", 0, "UNITS", 2)},
 		{Harness: "IdentConfined", Params: P("MODE", 1, "UNITS", 0)}, {Harness: "IdentConfined", Params: P("MODE", 1, "UNITS", 1)}, {Harness: "IdentConfined", Params: P("MODE", 1, "UNITS", 2)},
 	}
+	r = append(r, hrun{Harness: "IdentConfined", Params: P("MODE", 0, "UNITS", 3)}, hrun{Harness: "IdentConfined", Params: P("MODE", 1, "UNITS", 3)})
+	r = append(r, valueRuns(thorough)...)
+	return r
+}
+
+func valueRuns(thorough bool) []hrun {
+	r := []hrun{
+		{Harness: "ValueConfined", Params: P("MODE", 0, "UNITS", 1)}, {Harness: "ValueConfined", Params: P("MODE", 0, "UNITS", 2)}, {Harness: "ValueConfined", Params: P("MODE", 0, "UNITS", 3)},
+		{Harness: "ValueConfined", Params: P("MODE", 1, "UNITS", 0)}, {Harness: "ValueConfined", Params: P("MODE", 1, "UNITS", 1)}, {Harness: "ValueConfined", Params: P("MODE", 1, "UNITS", 2)},
+	}
 	if thorough {
-		r = append(r, hrun{Harness: "IdentConfined", Params: P("MODE", 0, "UNITS", 3)}, hrun{Harness: "IdentConfined", Params: P("MODE", 1, "UNITS", 3)})
+		r = append(r, hrun{Harness: "ValueConfined", Params: P("MODE", 0, "UNITS", 4)}, hrun{Harness: "ValueConfined", Params: P("MODE", 1, "UNITS", 3)})
 	}
 	return r
 }
@@ -161,8 +171,8 @@ var props = map[string]propCfg{
 		Outside:  "NULLs; collations other than bytewise; floats other than the listed constants; regexp meaning; SIMILAR TO patterns containing regex metacharacters; deeper trees",
 	},
 	"C04": {
-		Quick:    withOnly(append(sqlRuns(false, 1), indepRuns(false)...), c04ids, false),
-		Thorough: withOnly(append(sqlRuns(true, 1), indepRuns(true)...), c04ids, false),
+		Quick:    withOnly(append(append(sqlRuns(false, 1), indepRuns(false)...), valueRuns(false)...), c04ids, false),
+		Thorough: withOnly(append(append(sqlRuns(true, 1), indepRuns(true)...), valueRuns(true)...), c04ids, false),
 		Bounds:   "as C03, plus two independent instances of the same query shape (2-safety) for every leaf form and for trees of depth 1 (quick) / 2 (thorough)",
 		Outside:  "value kinds other than int, string, the listed floats; deeper trees",
 	},
